@@ -181,7 +181,7 @@ func dischargeAll(results []*UnitResult, scratch string, seed, timeoutS, par int
 			body := j.res.queryBody(o)
 			to := timeoutS
 			if o.IsCover {
-				to = 5
+				to = 2
 			}
 			known := inLedger == nil || inLedger(o.Name)
 			if !known && !o.IsCover {
@@ -193,6 +193,12 @@ func dischargeAll(results []*UnitResult, scratch string, seed, timeoutS, par int
 				sr2 := solve(scratch, j.idx, body, seed+7919, to*2, false, false)
 				if sr2.status == "unsat" || sr2.status == "sat" {
 					sr = sr2
+				} else {
+					// third and last attempt: an alarm on unchanged code is worse than a slow run
+					sr3 := solve(scratch, j.idx, body, seed+104729, to*3, false, false)
+					if sr3.status == "unsat" || sr3.status == "sat" {
+						sr = sr3
+					}
 				}
 			}
 			o.Status, o.Solver, o.TimeS = sr.status, sr.solver, sr.timeS
